@@ -416,6 +416,8 @@ func (s *Sim) Apply(op Op) *Violation {
 		return s.opAlterX(op)
 	case "burst":
 		return s.opBurst(op)
+	case "nftraid":
+		return s.opNFTRaid(op)
 	case "round":
 		return s.opRound(op)
 	case "cleanflow":
